@@ -9,7 +9,7 @@ RULE = ("one transmitting RF24 and one receiving RF24 (six pipes open) on a simu
         "list with a concurrently polling peer thread, SPI flavour); unique-id payloads. "
         "Non-trivial: a payload was loaded into the radio or a rejection was observed; "
         "distinct = distinct abstract case tuples (payload contents abstracted).")
-RULE += (" Later rounds added: ping-pong role swaps, write()-until-refused streaming, set-up histories between opening the pipes and the traffic (role round trips, with re-entry, late address width, sender's own pipe-0 address, short re-open), blind read()-until-None drains, per-pipe static length styles, replies left unread in the sender's RX FIFO across a send(send_only=True) with forced retries and a lost first burst.")
+RULE += (" Later rounds added: ping-pong role swaps, write()-until-refused streaming, set-up histories between opening the pipes and the traffic (role round trips, with re-entry, late address width, sender's own pipe-0 address, short re-open), blind read()-until-None drains, per-pipe static length styles, replies left unread in the sender's RX FIFO across a send(send_only=True) with forced retries and a lost first burst, static lengths configured first and ACK payloads enabled afterwards (pipe 0 dynamic from then on), one or two write_only loads before a send().")
 REQUIRED = {"bus_bytes": 500, "peer_read": 500, "buffer_unmodified": 500, "rejection_state": 20, "unread_replies_survive_send_only": 100,
             "exactly_once": 500, "pipe_attribution": 500}
 ASSUMPTIONS = ["configurations respect the documented ARD/data-rate constraint",
@@ -83,6 +83,18 @@ def gen_cases(ctx):
         if rng.random() < 0.3:
             over["aw_first"] = rng.choice([3, 4, 5])
         yield _base(rng, static=static, lens=[rng.randrange(1, 33)], **over)
+    rng2 = ctx.sub_rng("c01b")
+    for i in range(300 if ctx.tier == "quick" else 8000):
+        static = None if rng2.random() < 0.5 else rng2.randrange(1, 33)
+        yield _base(rng2, static=static, form="preload", lens=[rng2.randrange(1, 33) for _ in range(rng2.choice([2, 3]))],
+                    crc=rng2.choice([1, 2]), auto_ack=True, ask_no_ack=False, junk_first=False)
+    # static lengths configured first, ACK payloads enabled afterwards on both ends (`ack = True`
+    # or an implicit one through load_ack()): pipe 0 is in dynamic mode from then on - payloads
+    # arrive unpadded, lengths 0 and 33..40 are rejected
+    for i in range(400 if ctx.tier == "quick" else 12000):
+        yield _base(rng2, static=None, static_cfg=rng2.randrange(1, 33), pre=[rng2.choice(["ack_on", "ack_load"])],
+                    pipe=0, auto_ack=True, crc=rng2.choice([1, 2]), ask_no_ack=False, pingpong=False,
+                    junk_first=False, lens=[rng2.choice([rng2.randrange(0, 41), rng2.randrange(1, 33)])])
     if ctx.tier == "thorough":
         for btype in ("bytes", "bytearray"):
             for n in range(41):
@@ -97,7 +109,7 @@ def sig_of(case):
     return (tuple(case["lens"]), case["btype"], case["static"], case["pipe"], case["aw"],
             case["rate"], case["crc"], case["auto_ack"], case["ask_no_ack"], case["form"],
             case["flavour"], case.get("tx_kind"), case.get("rx_kind"), tuple(case.get("pre", ())),
-            case.get("aw_first"), case.get("drain"), case.get("pl_style"))
+            case.get("aw_first"), case.get("drain"), case.get("pl_style"), case.get("static_cfg"))
 
 
 def run_case(ctx, case, kinds=None, prefix=""):
@@ -193,7 +205,15 @@ def _run_single(ctx, case, pair, prefix):
     node = pair.rig.node
     node.deadline = node.t + 400 * W.MS * len(bufs)
     try:
-        tx.send(arg, ask_no_ack=case["ask_no_ack"])
+        if case["form"] == "preload":
+            # one or two payloads loaded without starting the transmission (write_only), then send():
+            # everything goes out in the order it was handed over
+            for b in bufs[:-1]:
+                tx.write(b, ask_no_ack=case["ask_no_ack"], write_only=True)
+            tx.send(bufs[-1], ask_no_ack=case["ask_no_ack"])
+            ctx.count("sends_after_write_only_loads")
+        else:
+            tx.send(arg, ask_no_ack=case["ask_no_ack"])
     except ValueError as e:
         exc = e
     except W.VirtualDeadline:
@@ -203,7 +223,8 @@ def _run_single(ctx, case, pair, prefix):
         return
     finally:
         node.deadline = None
-    pair.rig.node.idle(2 * W.MS)
+    # (after pre-loaded payloads send() returns on the first one; the others are still going out)
+    pair.rig.node.idle((15 if case["form"] == "preload" else 2) * W.MS)
     loaded = _tx_bytes_on_bus(rt)
     if invalid:
         ctx.clause("rejection_state")
